@@ -60,6 +60,8 @@ func (p *bpeer) clientWrote(c *memConn, b []byte) error {
 	if err != nil && p.frameErr == nil {
 		p.frameErr = err
 		p.log.add(c.id, "FRAME-ERROR", nil, err.Error())
+		// a real broker drops the link on a malformed packet; this also keeps blocked calls from waiting
+		c.peerClose(false)
 	}
 	return nil
 }
